@@ -179,6 +179,9 @@ where
                     if c.get("extend").and_then(|x| x.as_bool()).unwrap_or(false) {
                         o = o.extend_addresses_through_behaviour();
                     }
+                    if c.get("role_override").and_then(|x| x.as_bool()).unwrap_or(false) {
+                        o = o.override_role();
+                    }
                     if let Some(k) = c.get("factor").and_then(|x| x.as_u64()) {
                         o = o.override_dial_concurrency_factor(std::num::NonZeroU8::new(k as u8).unwrap());
                     }
@@ -330,6 +333,29 @@ where
                     }
                 }
                 self.events.push(json!({"e": "emitQueued", "n": n}));
+            }
+            "hpoc" => {
+                // call the (derived) behaviour's handle_pending_outbound_connection directly, with or without a peer id
+                let peer = vcommon::n(c, "peer");
+                let cid = libp2p_swarm::ConnectionId::new_unchecked(900_000 + self.seq as usize);
+                self.seq += 1;
+                let id = self.rig.ids.conn(cid);
+                for (i, pb) in self.behs().iter().enumerate() {
+                    let p = plan_of(c, i);
+                    pb.ctl.with(|ct| {
+                        ct.plans.insert(cid, p);
+                    });
+                }
+                let mp = if peer >= 0 { Some(self.rig.ids.peer_id(peer as usize)) } else { None };
+                let r = vcommon::guard(|| self.rig.swarm.behaviour_mut().handle_pending_outbound_connection(cid, mp, &[], libp2p_core::Endpoint::Dialer));
+                let inner = self.rig.log.drain();
+                self.events.extend(inner);
+                match r {
+                    Ok(Ok(v)) => self.events.push(json!({"e": "hpoc", "id": id, "peer": peer, "denied": false, "ret": v.iter().map(|a| abs_addr_int(&a.to_string())).collect::<Vec<_>>(),
+                        "beh_addrs": c.get("beh_addrs").cloned().unwrap_or(json!([]))})),
+                    Ok(Err(_)) => self.events.push(json!({"e": "hpoc", "id": id, "peer": peer, "denied": true, "ret": [], "beh_addrs": c.get("beh_addrs").cloned().unwrap_or(json!([]))})),
+                    Err(m) => self.events.push(json!({"e": "panic", "msg": m})),
+                }
             }
             "hEmit" => {
                 // the handler of field `field` on connection `id` emits an event tagged with its own field name
